@@ -1,12 +1,12 @@
 package main
 
 import (
-	"sync/atomic"
-	"strings"
 	"fmt"
 	"go/constant"
 	"go/token"
 	"go/types"
+	"strings"
+	"sync/atomic"
 
 	"golang.org/x/tools/go/ssa"
 )
